@@ -18,7 +18,7 @@ type CLICase struct {
 	N    int    `json:"n"`    // statements in the file (statement 1 creates the journal table)
 	K    int    `json:"k"`    // statements applied before the failing one (1..n-1)
 	Set  bool   `json:"set"`  // run `migrate set 1` between the failure and the edit
-	Edit string `json:"edit"` // none | repair | tail | prefix | truncate | insert_front
+	Edit string `json:"edit"` // none | repair | tail | prefix | truncate | insert_front | grow_fail_again
 }
 
 func cliStmt(i int) string {
@@ -64,6 +64,47 @@ func evalCLI(c CLICase) (problems []string) {
 			bad("`migrate set 1` failed: %s", rs)
 			return
 		}
+	}
+	if c.Edit == "grow_fail_again" {
+		// the failing statement is repaired and the unapplied tail grows by two statements, the first of
+		// which fails again (exactly where the file used to end); after the second repair the rest runs.
+		grown := append(append([]string(nil), orig...), cliFailing, "INSERT INTO journal (sid) VALUES (96)")
+		if err := w.WriteDir("migrations", map[string]string{"1_f.sql": cliBody(grown)}); err != nil {
+			return []string{"harness: " + err.Error()}
+		}
+		if r2 := apply(); r2.Exit == 0 || strings.Contains(r2.Stderr, "panic:") {
+			bad("the grown tail holds a failing statement, yet apply did not fail cleanly: %s", r2)
+			return
+		}
+		if rv, _ := w.Revisions("db.sqlite"); rv["1"][0] != strconv.Itoa(c.N) || rv["1"][1] != strconv.Itoa(c.N+2) {
+			bad("after the second failure revision 1 is applied=%s total=%s, want applied=%d total=%d", rv["1"][0], rv["1"][1], c.N, c.N+2)
+		}
+		grown[c.N] = "INSERT INTO journal (sid) VALUES (97)"
+		if err := w.WriteDir("migrations", map[string]string{"1_f.sql": cliBody(grown)}); err != nil {
+			return []string{"harness: " + err.Error()}
+		}
+		r3 := apply()
+		if r3.Exit != 0 {
+			bad("after the second repair apply fails: %s", r3)
+			return
+		}
+		var want []string
+		for i := 1; i < c.N; i++ {
+			want = append(want, strconv.Itoa(i+1))
+		}
+		want = append(want, "97", "96")
+		after, _ := w.Query("db.sqlite", "SELECT sid FROM journal ORDER BY rowid")
+		var got []string
+		for _, a := range after {
+			got = append(got, a[0])
+		}
+		if fmt.Sprint(got) != fmt.Sprint(want) {
+			bad("after fail, grow + fail again, repair: journal %v, want %v (%s)", got, want, strings.TrimSpace(r3.Stdout))
+		}
+		if rv, _ := w.Revisions("db.sqlite"); rv["1"][0] != rv["1"][1] || rv["1"][2] != "" {
+			bad("after the last run revision 1 is applied=%s total=%s error=%q", rv["1"][0], rv["1"][1], rv["1"][2])
+		}
+		return
 	}
 	// the edit
 	next := append([]string(nil), orig...) // "repair": the failing statement replaced by the intended one
@@ -148,7 +189,7 @@ func cliCases() []CLICase {
 	for n := 2; n <= 4; n++ {
 		for k := 1; k < n; k++ {
 			for _, set := range []bool{false, true} {
-				for _, e := range []string{"none", "repair", "tail", "prefix", "truncate", "insert_front"} {
+				for _, e := range []string{"none", "repair", "tail", "prefix", "truncate", "insert_front", "grow_fail_again"} {
 					cs = append(cs, CLICase{n, k, set, e})
 				}
 			}
